@@ -9,7 +9,7 @@ From Adm Require Export Heap.HeapDefs.
 Local Open Scope N_scope.
 
 (* ---------- plans (regenerated from src/document.cpp by the translator) ---------- *)
-Inductive action := EraseFirst | UnsetIfEq.
+Inductive action := EraseFirst | EraseAll | UnsetIfEq.
 Record plans := mkPlans {
   add_plan : kind -> list refkind;               (* reference kinds Document::add recurses into, in order *)
   remove_plan : kind -> list (refkind * action)  (* referrer loops of Document::remove, in order *)
@@ -344,15 +344,27 @@ Definition unset_ref (rk : refkind) (a : positive) : M unit :=
   | _ => if multi rk then throw BadValue else set_refs_of a rk []
   end.
 
-(* clearReferences<T>() / clearComplementaryObjects(): plain clear, also for the stream's track list *)
+(* clearReferences<T>() / clearComplementaryObjects(); the stream format's list is cleared and the
+   track formats that pointed back at it drop their reference *)
 Definition clear_refs (rk : refkind) (a : positive) : M unit :=
-  if multi rk then set_refs_of a rk [] else throw BadValue.
+  match rk with
+  | StreamTrack =>
+      l <~ refs_of a StreamTrack ;;;
+      set_refs_of a StreamTrack [] ;;;
+      m_iter (fun t => te <~ m_get t ;;;
+                       if opt_eqb (single (erefs te TrackStream)) (Some a) then track_unset_stream t else ret tt) l
+  | _ => if multi rk then set_refs_of a rk [] else throw BadValue
+  end.
 
 (* ---------- Document::remove ---------- *)
 Definition apply_remove_action (x : positive) (ra : refkind * action) (lister : positive) : M unit :=
   let '(rk, act) := ra in
   match act with
   | EraseFirst => remove_ref rk lister x
+  | EraseAll =>
+      (* std::count, then removeReference that many times *)
+      l <~ refs_of lister rk ;;;
+      m_iter (fun _ => remove_ref rk lister x) (filter (Pos.eqb x) l)
   | UnsetIfEq =>
       l <~ refs_of lister rk ;;;
       if opt_eqb (single l) (Some x) then unset_ref rk lister else ret tt
